@@ -30,6 +30,7 @@ type Lemma struct {
 	Statement string
 	Proof     string
 	File      string
+	Axiom     bool // ;;@axiom: the statement joins the prelude of every VC (otherwise it is only proved)
 }
 
 func loadLemmas(dir string) ([]*Lemma, error) {
@@ -52,6 +53,8 @@ func loadLemmas(dir string) ([]*Lemma, error) {
 				l.Tags = strings.Split(strings.ReplaceAll(strings.TrimSpace(strings.TrimPrefix(t, ";;@tags ")), " ", ""), ",")
 			case strings.HasPrefix(t, ";;@defs "):
 				l.Defs = strings.Fields(strings.TrimPrefix(t, ";;@defs "))
+			case t == ";;@axiom":
+				l.Axiom = true
 			case t == ";;@statement":
 				sect = "s"
 			case t == ";;@proof":
@@ -95,7 +98,9 @@ func (e *Engine) lemmaResult(i int) *FuncResult {
 	res := &FuncResult{Key: key}
 	pre := e.PreludeBase
 	for _, p := range e.Lemmas[:i] {
-		pre += p.Statement
+		if p.Axiom {
+			pre += p.Statement
+		}
 	}
 	c := NewCtx(pre)
 	for _, d := range l.Defs {
